@@ -116,6 +116,10 @@ def explore(prop, tier, off=0):
             if arch == 'dir' and km[0] == 'raw': km = ('string', {'typed': True})
             algo = r.choice(['lru', 'lfu', 'mru', 'rr', 'inf', 'no'])
             ign = r.choice([[], [], ['y'], [0]]) if func == 'f1' else []
+            # fixed strata: raw keys that contain klepto's marker objects (NULL from an ignore specification, the SENTINEL) stored through
+            # a pickling archive - the markers must come back as the same objects in the later session
+            if i % 6 == 0: func, km, ign = 'f1', ('raw', {}), ['y']
+            if i % 6 == 3: func, km, ign = 'f1', ('raw', {'sentinel': True}), [0]
             calls = [gen_call(r, func, VALS2) for _ in range(6)]
             # (unhashable arguments make a safe decorator evaluate directly every time: not a key-stability matter)
             calls = [dict(args=[a for a in c['args'] if a != '[1, 2]'] or ["'u'"], kw=[(n, v) for n, v in c['kw'] if v != '[1, 2]']) if func == 'f1' else c for c in calls]
